@@ -26,7 +26,7 @@
 (* not multiply the histories.                                                           *)
 EXTENDS Table, Json
 
-CONSTANTS Mode, MaxRagged, MaxRaggedInt, MaxExtends, PoolOrder, MaxMut, MaxObs, MaxConds
+CONSTANTS Mode, MaxRagged, MaxRaggedInt, MaxExtends, PoolOrder, MaxMut, MaxObs, MaxConds, UseOpts
 
 N_A    == << 65 >>
 N_a    == << 97 >>
@@ -109,11 +109,16 @@ RenderFmt(j) ==
 (* A solve is prepared by writing the block: at most MaxConds initial conditions - on a     *)
 (* stored name (plain or with the space), or on a name of the pool that has no equation -,   *)
 (* then the horizon stated nowhere, in the block, on the solver, or in both (block first;    *)
-(* with a condition: in the block).  Once the preparation has begun the next steps are the   *)
+(* with a condition: in the block), then - horizon in the block only, no condition - the   *)
+(* solver options TraceStep (inside / outside the horizon) and initial steady state.  Once  *)
+(* the preparation has begun the next steps are the   *)
 (* rest of it and the Solve, so that it does not interleave with the other calls.            *)
 CanSolve == /\ phase = "build" /\ NumMut < MaxMut /\ NumObs < MaxObs
             /\ \A n \in DOMAIN holder : holder[n].kind = "num" /\ holder[n].len = 1
 Configuring == phase = "build" /\ (stated # Unstated \/ conds # {})
+(* options: after the horizon has been stated in the block and nowhere else, without conditions: *)
+(* trace (inside / outside), then steady; each at most once                                      *)
+OptsAllowed == UseOpts /\ conds = {} /\ stated.block.is /\ ~stated.solver.is
 CondChoices == { c \in [name : Names, sp : BOOLEAN] : c.sp => c.name \in DOMAIN holder } \ conds
 
 EditNext ==
@@ -121,7 +126,9 @@ EditNext ==
        /\ \/ /\ stated = Unstated /\ Cardinality(conds) < MaxConds
              /\ \E c \in CondChoices : Condition(c.name, c.sp)
           \/ stated = Unstated /\ \E h \in Horizons : StateHorizon("block", h)
-          \/ conds = {} /\ ~stated.solver.is /\ \E h \in Horizons : StateHorizon("solver", h)
+          \/ conds = {} /\ opts = NoOpts /\ ~stated.solver.is /\ \E h \in Horizons : StateHorizon("solver", h)
+          \/ OptsAllowed /\ opts = NoOpts /\ \E w \in TraceWheres : SetTrace(w)
+          \/ OptsAllowed /\ ~opts.steady /\ SetSteady
           \/ ~(conds # {} /\ stated = Unstated) /\ Solve({})
     \/ /\ ~Configuring /\ CanSolve
        /\ \/ MaxConds > 0 /\ \E c \in CondChoices : Condition(c.name, c.sp)
